@@ -12,5 +12,13 @@ build_tool()
 for h in sorted(os.listdir("harness")):
     if os.path.exists(os.path.join("harness", h, "Cargo.toml")) and not os.path.exists(os.path.join("harness", h, ".nosetup")):
         build_harness(h)
+# pre-build the shared generated crate of the quick tier (C01 C02 C07 C09 C10 C12 reuse it)
+sys.path.insert(0, ".")
+try:
+    from checks import c01
+    b = c01.build_all("quick")
+    print("ffix-quick:", "ok" if b["ok"] else "FAILED at " + b["stage"])
+except Exception as e:  # never fail setup because of an optional warm-up
+    print("ffix-quick warm-up skipped:", e)
 print("setup ok")
 PY
